@@ -27,6 +27,10 @@ CLAIMED.update({
     'C17': ('nondeterministic environment stub for hash randomisation: every set built by repository code iterates in an explorer/solver-chosen order (load-time AST transform); transcripts compared over all orders; counterexamples replayed in separate processes under different PYTHONHASHSEED', '5 C17'),
     'C19': ('symbolic execution of the real Context(...)/fromdict validation on inputs with solver-decided name aliasing (SymName), symbolic cells and symbolic column indexes; per path: unsat(pc and valid) on raising paths, pc implies valid and faithfulness on accepting paths', '5 C19'),
 })
+CLAIMED.update({
+    'C13': ('one inductive step per editing operation: arbitrary valid Definition state (all name orders, one symbolic Boolean per cell), real method bodies merge-interpreted, post-state vs list-and-set model by SMT queries', '5 C13'),
+    'C14': ('derivations on symbolic-cell definitions vs cell-wise model by SMT, structural + behavioural aliasing checks with follow-up edits; Context<->Definition per table via the solver-driven table partition', '5 C14'),
+})
 PENDING = {}
 NA = {
     'C12': 'text formats quantify over label strings, encodings, csv dialects and files: code is str methods, %-formatting, '
